@@ -82,7 +82,11 @@ impl Check for C11 {
         }
     }
     fn required_counters(&self) -> Vec<&'static str> {
-        vec!["projection_observations", "programs_reached_by_3plus_states", "reference_compared", "second_run_compared", "infinite_prefix_programs", "nested_project_programs"]
+        vec!["projection_observations", "programs_reached_by_3plus_states", "reference_compared", "second_run_compared", "infinite_prefix_programs", "nested_project_programs", "miri_cases_run", "miri_direct_projection_checks"]
+    }
+    fn miri_lane(&self, tier: Tier) -> Option<(Vec<(&'static str, u64, u64)>, bool)> {
+        // the unsafe projection write driven directly + project programs, interpreted by Miri
+        Some((vec![("project", 0, if tier == Tier::Thorough { 48 } else { 6 })], true))
     }
     fn run_case(&self, gen: &str, seed: u64, index: u64, _tier: Tier) -> CaseOut {
         let mut out = CaseOut::default();
